@@ -32,7 +32,11 @@ class CrashInjected(BaseException):
     pass
 
 
-FDS = {}  # file descriptor -> RecFile, for writes that go through os.pwrite / os.write on fileno()
+import weakref  # noqa: E402
+
+# file descriptor -> RecFile, for writes that go through os.pwrite / os.write on fileno().  WEAK references: a handle the
+# library drops without closing must be finalised exactly as it would be without the monitor (seed6-H11E needs that)
+FDS = weakref.WeakValueDictionary()
 
 
 class RecFile(object):
